@@ -640,6 +640,13 @@ class DynamicBayesianNetwork(DAG):
             if not any(x.variable == temp_var for x in self.cpds):
                 if all(x[1] == parents[0][1] for x in parents):
                     if parents:
+                        # Keep the evidence order of the CPD being copied (the graph may
+                        # list the parents in another order).
+                        shifted = [
+                            DynamicNode(var[0], temp_var[1]) for var in cpd.variables[1:]
+                        ]
+                        if set(shifted) == set(parents):
+                            parents = shifted
                         evidence_card = cpd.cardinality[1:]
                         new_cpd = TabularCPD(
                             temp_var,
